@@ -197,17 +197,21 @@ Fixpoint cnt_upd (l : list cnt) (o : nat) (size : Z) : list cnt :=
   | c :: l', S o' => c :: cnt_upd l' o' size
   end.
 
-Definition p_step (lp : bool) (s : pstate) (e : p_event) : pstate :=
+Definition p_step_mg (mg : list bytes -> bytes) (s : pstate) (e : p_event) : pstate :=
   match e with
   | PRec ks len fired drop =>
     let f := fun kc => KC (kc_keys kc)
                           (if drop then ic_drop (kc_in kc) len else ic_pass (kc_in kc) len)
                           (lab_add_all (kc_lab kc) fired len) in
-    PS (kmap_upd (p_map s) (merge_key lp ks) ks f) (p_chunks s) (p_entered s + 1) (p_entered_b s + len)
+    PS (kmap_upd (p_map s) (mg ks) ks f) (p_chunks s) (p_entered s + 1) (p_entered_b s + len)
   | PChunk o size => PS (p_map s) (cnt_upd (p_chunks s) o size) (p_entered s) (p_entered_b s)
   end.
 
-Definition p_run (lp : bool) (nout : nat) (evs : list p_event) : pstate := fold_left (p_step lp) evs (p_init nout).
+Definition p_step (lp : bool) : pstate -> p_event -> pstate := p_step_mg (merge_key lp).
+
+Definition p_run_mg (mg : list bytes -> bytes) (nout : nat) (evs : list p_event) : pstate :=
+  fold_left (p_step_mg mg) evs (p_init nout).
+Definition p_run (lp : bool) (nout : nat) (evs : list p_event) : pstate := p_run_mg (merge_key lp) nout evs.
 
 (* sums over all key sets *)
 Fixpoint kmap_sum (f : kcount -> Z) (m : list (bytes * kcount)) : Z :=
@@ -252,7 +256,8 @@ Record bstate := BS {
   b_left : list chunk;       (* handed back by the consumer and on disk *)
   b_lost : list chunk;       (* handed back by the consumer but NOT stored (write refused) and counted leftover *)
   b_nfiles : Z;              (* chunk files in the directory *)
-  b_orphans : Z;             (* files whose chunk was counted dropped / whose unlink failed *)
+  b_orphans : Z;             (* history: files left behind: the chunk was counted dropped while saved (gauge decremented),
+                                or its unlink failed (gauge not decremented: b_unlink_failed) *)
   b_phase : bphase;
   b_accepted : Z;            (* history: Accept calls *)
   b_recovered : Z            (* history: chunks enqueued by recoverExistingChunks *)
@@ -290,7 +295,7 @@ Definition man_dropped (m : bmetrics) (c : chunk) : bmetrics :=
 (* chunkOperator.RemoveChunk: (metrics', files removed, orphans added) *)
 Definition op_remove (cfg : bcfg) (m : bmetrics) (c : chunk) (ul : bool) : bmetrics * Z * Z :=
   if negb (ch_saved c) then (m, 0, 0)
-  else if negb (bc_dir cfg) then (m, 0, 0)
+  else if negb (bc_dir cfg) then (m, 0, 1)    (* "BUG: cannot remove chunk with nil dir" (unreachable: nothing is saved without a directory) *)
   else if ul then
     (BM (m_pending m) (m_in_t m) (m_in_p m) (m_consumed m) (m_leftover m) (m_dropped m)
         (m_pchunks m - 1) (m_pbytes m - data_len c) (m_ioerr m), 1, 0)
@@ -996,32 +1001,38 @@ Definition p_event_of (r : recdesc) : option p_event :=
   | _ => None
   end.
 
-(* pipelines: orchestration key tuple -> worker state (the harness never sends colliding tuples) *)
-Fixpoint pipes_upd (lp : bool) (m : list (list bytes * pstate)) (ok : list bytes) (e : p_event) : list (list bytes * pstate) :=
+(* ---- composition of input and workers over a stream of records ----
+   A record as the agent sees it: what happens at the input, and - for a record returned to the receiver -
+   the pipeline (orchestration key tuple) it is routed to and what happens in that pipeline's worker. *)
+Record rec_run := RR { rr_in : in_event; rr_pipe : list bytes; rr_p : option p_event }.
+
+(* pipelines: orchestration key tuple -> worker state (keyed by the text of the tuple, which is injective) *)
+Fixpoint pipes_upd (mg : list bytes -> bytes) (m : list (bytes * pstate)) (pk : bytes) (e : p_event) : list (bytes * pstate) :=
   match m with
-  | [] => [(ok, p_step lp (p_init 0) e)]
+  | [] => [(pk, p_step_mg mg (p_init 0) e)]
   | (k, v) :: m' =>
-    if bytes_eqb (keys_text k) (keys_text ok) then (k, p_step lp v e) :: m' else (k, v) :: pipes_upd lp m' ok e
+    if bytes_eqb k pk then (k, p_step_mg mg v e) :: m' else (k, v) :: pipes_upd mg m' pk e
   end.
 
-Fixpoint run_records (counted lp : bool) (rs : list recdesc) (i : in_state) (ps : list (list bytes * pstate))
-  : in_state * list (list bytes * pstate) :=
-  match rs with
-  | [] => (i, ps)
-  | r :: rs' =>
-    let i' := in_step counted i (in_event_of r) in
-    match p_event_of r with
-    | Some e => run_records counted lp rs' i' (pipes_upd lp ps (rd_okeys r) e)
-    | None => run_records counted lp rs' i' ps
-    end
+Definition rec_step (counted : bool) (mg : list bytes -> bytes) (st : in_state * list (bytes * pstate)) (r : rec_run)
+  : in_state * list (bytes * pstate) :=
+  let i' := in_step counted (fst st) (rr_in r) in
+  match rr_p r with
+  | Some e => (i', pipes_upd mg (snd st) (keys_text (rr_pipe r)) e)
+  | None => (i', snd st)
   end.
 
-Definition entry_text (pk : list bytes) (kc : kcount) : bytes :=
-  keys_text pk ++ ch_slash :: keys_text (kc_keys kc) ++ ch_eq :: ic_text (kc_in kc)
+Definition run_records (counted : bool) (mg : list bytes -> bytes) (rs : list rec_run) : in_state * list (bytes * pstate) :=
+  fold_left (rec_step counted mg) rs (in_init, []).
+
+Definition rec_of_desc (r : recdesc) : rec_run := RR (in_event_of r) (rd_okeys r) (p_event_of r).
+
+Definition entry_text (pk : bytes) (kc : kcount) : bytes :=
+  pk ++ ch_slash :: keys_text (kc_keys kc) ++ ch_eq :: ic_text (kc_in kc)
   ++ match kc_lab kc with [] => [] | _ => ch_slash :: lab_text (kc_lab kc) end.
 
-Definition pipes_text (ps : list (list bytes * pstate)) : bytes :=
-  let entries := flat_map (fun pv : list bytes * pstate =>
+Definition pipes_text (ps : list (bytes * pstate)) : bytes :=
+  let entries := flat_map (fun pv : bytes * pstate =>
                              map (fun kv : bytes * kcount => entry_text (fst pv) (snd kv)) (p_map (snd pv))) ps in
   join ch_semi (sort_by (fun x : bytes => x) entries).
 
@@ -1035,7 +1046,7 @@ Definition run_kind1 (c : case) : bytes :=
     (* zargs[5]: bit 0 = light scenario (ignored), bit 1 = the implementation under test uses the
        length-prefixed merged key (observed by the harness on the real LogProcessCounterSet) *)
     let lp := Z.testbit (zarg c 5) 1 in
-    let '(i, ps) := run_records code_counts_extraction_drops lp rs in_init [] in
+    let '(i, ps) := run_records code_counts_extraction_drops (merge_key lp) (map rec_of_desc rs) in
     str_ok ++ colon :: [105; 61]%N ++ ic_text (i_cnt i)
     ++ ch_semi :: [108; 61]%N ++ lab_text (i_lab i)
     ++ ch_semi :: [119; 61]%N ++ pipes_text ps
